@@ -928,6 +928,7 @@ impl<'a, 'b> Gen<'a, 'b> {
                 }
                 self.sym(";");
             }
+            _ if self.t.chance(2, 3) => self.stmt_more(d - 1),
             _ => {
                 self.tag("stmt-proc-continuous");
                 match self.t.below(3) {
@@ -1920,11 +1921,11 @@ impl<'a, 'b> Gen<'a, 'b> {
     /// one module_or_generate_item (depth bounds generate nesting)
     pub fn module_item(&mut self, depth: usize) {
         let gen_w = if depth > 0 { 3 } else { 0 };
-        if self.t.chance(1, 12) {
-            if self.t.flip() {
-                self.enum_struct_variable();
-            } else {
-                self.misc_module_item();
+        if self.t.chance(1, 10) {
+            match self.t.below(5) {
+                0 | 1 => self.enum_struct_variable(),
+                2 => self.misc_module_item(),
+                _ => self.misc_module_item2(),
             }
             return;
         }
